@@ -1,7 +1,7 @@
 (* C05 - c-inference = skeptical inference over all c-representations. *)
 From InfOCF Require Import Core Tol CInf PEnt Form Model CModel ThmC ThmPostInt.
 From InfOCFProps Require Import Ex.
-From InfOCF Require Import PyLib PyInt TieMax TieC.
+From InfOCF Require Import PyLib PyInt TieMax TieC TieCBase.
 From InfOCFGen Require Import SrcC.
 From Coq Require Import ZArith.
 
@@ -52,6 +52,25 @@ Theorem C05_source_query_constraint : forall n D, NoDup (map kz D) -> forall eta
     ((exists a b, csp_sat (with_aux sg a b) csp = true) <-> qcon_b n D eta q = true).
 Proof. exact tie_query_constraint. Qed.
 Print Assumptions C05_source_query_constraint.
+
+(* ... translate() / encoding(): run on dictionaries vMin / fMin holding, per conditional, the key sets of the model's minimal
+   correction patterns, the generated base CSP is solvable with impacts eta exactly when kappa_eta is a c-representation of
+   the base (on a base each of whose conditionals is verifiable, as on every consistent base); and the generated query
+   constraints exactly when kappa_eta does not accept the query.  Together: "base CSP + query constraints unsolvable" is
+   "every c-representation accepts the query". *)
+Theorem C05_source_base_csp_is_c_representation : forall n D, NoDup (map kz D) -> forall eta, length eta = length D ->
+  (forall i, i < length D -> vMin n D i <> []) -> exists csp,
+  py_CInference_translate n (bb_of D) (vM n D) (fM n D) = Return csp /\
+  forall sg, eta_assignment D eta sg ->
+    ((exists sg', (forall k, sg' (SEta k) = sg (SEta k)) /\ csp_sat sg' csp = true) <-> crep_b n D eta = true).
+Proof. exact src_csp_is_c_representation. Qed.
+Print Assumptions C05_source_base_csp_is_c_representation.
+Theorem C05_source_query_constraint_is_non_acceptance : forall n D, NoDup (map kz D) -> forall eta, length eta = length D -> forall q, exists csp,
+  py_CInference_compile_and_encode_query n (nf_of D) q tt = Return (csp, tt) /\
+  forall sg, eta_assignment D eta sg ->
+    ((exists a b, csp_sat (with_aux sg a b) csp = true) <-> qacc_b n D eta q = false).
+Proof. exact src_query_is_not_accept. Qed.
+Print Assumptions C05_source_query_constraint_is_non_acceptance.
 
 Example birds_c : check_counter 4 birds [1;2;2;1] q_fp = true /\ search_counter 4 birds 3 q_wp = None
   /\ selffulfilling 4 birds = false.
